@@ -584,6 +584,24 @@ def process_wide_mutations(p: Program, fns: Iterable[FuncInfo]) -> List[Tuple[Fu
 
 
 # ----------------------------------------------------------------------------- positive controls
+def stored_callback_calls(p: Program, inits: Sequence[FuncInfo], param: str, fns: Iterable[FuncInfo]) -> List[Tuple[FuncInfo, ast.Call, str]]:
+    """Calls, anywhere in `fns`, of the attribute in which one of the constructors `inits` stores its parameter `param`
+    (`self._start_response = start_response` ... `request._start_response(...)`): (function, call, attribute)."""
+    attrs = set()
+    for init in inits:
+        for n in ast.walk(init.node):
+            if isinstance(n, ast.Assign) and isinstance(n.value, ast.Name) and n.value.id == param:
+                for t in n.targets:
+                    if isinstance(t, ast.Attribute) and isinstance(t.value, ast.Name) and t.value.id == init.params[0]:
+                        attrs.add(t.attr)
+    out = []
+    for f_ in fns:
+        for c in ast.walk(f_.node):
+            if isinstance(c, ast.Call) and isinstance(c.func, ast.Attribute) and c.func.attr in attrs:
+                out.append((f_, c, c.func.attr))
+    return out
+
+
 def controls_fire() -> List[str]:
     """Run the zero-expected detectors on the committed fixture (sa/fixtures/controls): returns the list of detectors that
     did NOT fire (empty = all alive)."""
@@ -601,6 +619,8 @@ def controls_fire() -> List[str]:
     rb = method_rebinds(cp)
     if not any(attr == "lookup" and is_cache for _, _, _, attr, _, is_cache in rb):
         dead.append("method_rebinds")
+    if not stored_callback_calls(cp, [cp.module("baize").classes["Conn"].methods["__init__"]], "start_response", cp.all_functions()):
+        dead.append("stored_callback_calls")
     sh = cp.module("baize").functions.get("shrink")
     if sh is None or not any(not ok for _, _, ok in stale_index_deletes(sh)):
         dead.append("stale_index_deletes")
